@@ -54,18 +54,18 @@ PROPS["C01"] = dict(
     ],
 )
 PROPS["C10"] = dict(
-    slices=["network", "tour_pos", "tour_mod", "path", "sched_guard", "admission"],
+    slices=["network", "tour_pos", "tour_mod", "path", "sched_guard", "admission", "train_formation_update"],
     witness_family="tour",
-    level_text="clause 1 (every vehicle tour is a chronological path of connectable nodes from a start depot to an end depot with activities in between): same obligations as C01 on the Tour constructor and modifiers; cycle-membership clause: update_transitions_and_violation_fast keeps every type's rotation cycles well formed w.r.t. the new tours with exactly the new real vehicles of the type as members (under the stated caller-side precondition: no vehicle listed twice); formation, track and depot limits: the admission checks vehicle_replacement_in_train_formation and can_depot_spawn_vehicle_custom_usage are exact (same obligations as C02); formation/tour agreement and sorted listings of whole schedules are NOT decided",
+    level_text="clause 1 (every vehicle tour is a chronological path of connectable nodes from a start depot to an end depot with activities in between): same obligations as C01 on the Tour constructor and modifiers; cycle-membership clause: update_transitions_and_violation_fast keeps every type's rotation cycles well formed w.r.t. the new tours with exactly the new real vehicles of the type as members (under the stated caller-side precondition: no vehicle listed twice); formation, track and depot limits: the admission checks vehicle_replacement_in_train_formation and can_depot_spawn_vehicle_custom_usage are exact and update_train_formation applies them to exactly the moved nodes (same obligations as C02); formation/tour agreement and sorted listings of whole schedules are NOT decided",
     level_note="same trusted base and caller-side assumptions as C01",
     scope="Tour::wf established by new_allow_invalid and preserved by replace_start_depot / replace_end_depot / remove / insert_path",
     assumptions=A_COMMON + A_ITER + ["A-path, A-type as for C01", "schedule-level invariants (formations, listings, depot usage, cycles) not under contract"],
 )
 PROPS["C02"] = dict(
-    slices=["limits", "admission", "mcf_bounds"],
+    slices=["limits", "admission", "mcf_bounds", "train_formation_update"],
     witness_family="net",
     level_text="Verus proves the per-call contracts: maximal_formation_count_for returns the smaller of the limits that are present (None iff neither), Depot::capacity_for is bounded by total and per-type capacity and is 0 for unlisted types, number_of_vehicles_required_to_serve is the exact ceiling; the schedule-level admission checks are exact: vehicle_replacement_in_train_formation lets a formation grow only while it is strictly below the track count (maintenance) resp. the combined formation limit (service) and otherwise performs exactly replace / remove / add_at_tail / no-op, can_depot_spawn_vehicle_custom_usage is true iff the type is listed with room left for the type and in total; the composition over schedule histories (train_formations single writer, spawn paths) is a structural argument, not machine-checked",
-    level_note="trusted: vstd, key-model axioms, u32::div_ceil and Option::or specs; stubs: VehicleTypes::get, VehicleTypes::iter; A-im (im::HashMap / HashSet shims), std HashMap Index spec; update_train_formation (the caller loop) is not under contract; of the min-cost-flow stage only the bound expressions on trip and depot edges are under contract (R8 fragments: upper bound = combined limit resp. capacity_for, lower bound = min(required, limit)); that the circulation returned by rs_graph's network_simplex respects them is A-lib",
+    level_note="trusted: vstd, key-model axioms, u32::div_ceil and Option::or specs; stubs: VehicleTypes::get, VehicleTypes::iter; A-im (im::HashMap / HashSet shims), std HashMap Index spec; update_train_formation (the single writer of the formation table) is under contract in slice train_formation_update: moved nodes get exactly the admitted replacement, a grown formation stays within the node's limit; of the min-cost-flow stage only the bound expressions on trip and depot edges are under contract (R8 fragments: upper bound = combined limit resp. capacity_for, lower bound = min(required, limit)); that the circulation returned by rs_graph's network_simplex respects them is A-lib",
     scope="limit combination, depot capacity, vehicles required, formation/track admission, depot spawn admission, unserved passengers per node",
     assumptions=A_COMMON + ["A-stub: VehicleTypes::get returns the stored type", "A-lib: rs_graph::mcf::network_simplex returns a circulation within the edge bounds; the graph plumbing of solve_for_vehicle_type is pinned by a skeleton hash, not verified", "the stand-in 100 for 'no formation limit' in the flow network is documented behaviour (trips needing more than 100 unlimited vehicles are not fully served by the start solution)"],
 )
@@ -85,17 +85,17 @@ PROPS["C03"] = dict(
 )
 PROPS["C09"] = dict(
     kani=True,
-    slices=["tour_mod", "formation", "depot_usage", "sched_guard"],
+    slices=["tour_mod", "formation", "depot_usage", "sched_guard", "train_formation_update"],
     witness_family="tour",
-    level_text="tour level: Verus proves that compute_*_of_nodes (and hence new_computing / every freshly built tour) equal the from-scratch meaning of the five cached figures written from the property text, and that replace_start_depot, replace_end_depot, remove and insert_path keep all five caches exact (delta formulas = recomputation), including tours through the infinitely distant overflow depot; schedule level: the depot-usage table stays exact for the updated vehicle and untouched for all others under update_depot_usage (from-scratch meaning: spawned/despawned sets per depot and type), depot_balance / total_depot_balance_violation are the sizes' differences resp. their absolute sum, update_tour_and_costs applies exactly the cost delta, update_transitions_and_violation_fast and set_next_day_transitions keep the schedule's maintenance violation equal to the sum of the per-type totals; the other schedule aggregates (costs across whole modifications, unserved passengers) are NOT decided",
+    level_text="tour level: Verus proves that compute_*_of_nodes (and hence new_computing / every freshly built tour) equal the from-scratch meaning of the five cached figures written from the property text, and that replace_start_depot, replace_end_depot, remove and insert_path keep all five caches exact (delta formulas = recomputation), including tours through the infinitely distant overflow depot; schedule level: the depot-usage table stays exact for the updated vehicle and untouched for all others under update_depot_usage (from-scratch meaning: spawned/despawned sets per depot and type), depot_balance / total_depot_balance_violation are the sizes' differences resp. their absolute sum, update_tour_and_costs applies exactly the cost delta, update_train_formation changes the unserved-passengers pair by exactly - Σ unserved(old formation) + Σ unserved(new formation) over the moved service trips, update_transitions_and_violation_fast and set_next_day_transitions keep the schedule's maintenance violation equal to the sum of the per-type totals; the other schedule aggregates (costs across whole modifications, unserved passengers) are NOT decided",
     level_note="trusted: as C01 plus A-iter sums (Sum for Distance/Duration folds with +; integer sums do not wrap); Network::bounded magnitudes are a stated precondition",
     scope="the five per-tour caches under the constructor and all four modifiers; depot-usage bookkeeping of one vehicle update",
     assumptions=A_COMMON + A_ITER + ["Schedule.{costs, unserved_passengers, maintenance_violation, depot_usage} delta updates are not under contract"],
 )
 PROPS["C13"] = dict(
-    slices=["formation"],
+    slices=["formation", "train_formation_update"],
     witness_family=None,
-    level_text="last sentence only: Verus proves that TrainFormation::replace puts the new vehicle at the replaced one's position, add_at_tail appends, remove keeps the order, and replace/remove return Err iff the vehicle is absent; providers, receivers and frame conditions at schedule level are NOT decided",
+    level_text="last sentence and the formation frame: Verus proves that TrainFormation::replace puts the new vehicle at the replaced one's position, add_at_tail appends, remove keeps the order, and replace/remove return Err iff the vehicle is absent; Schedule::update_train_formation (the formation bookkeeping of every modification) gives every moved non-depot node exactly the replacement that vehicle_replacement_in_train_formation specifies for its old formation, leaves the formations of all other nodes untouched, and refuses iff one replacement is refused; providers, receivers and the other frame conditions at schedule level are NOT decided",
     level_note="trusted: vstd Vec specs (push, swap_remove, remove, clone), SeqIter::position, A-clone (derived Clone of Vehicle returns an equal value)",
     scope="solution/src/train_formation.rs",
     assumptions=["A-iter: SeqIter::position = first index satisfying the predicate", "A-clone: derived Clone returns an equal value"],
@@ -125,19 +125,44 @@ PROPS["C05"] = dict(
 )
 
 PROPS["C16"] = dict(
-    slices=["pipeline", "depot_usage"],
+    slices=["pipeline", "depot_usage", "reassign"],
     witness_family=None,
-    level_text="data-flow (wiring) proof: with every stage abstracted by an uninterpreted function of its inputs, Verus proves on the verbatim bodies of server::solve_instance and internal::run that the answer is output(evaluate(reassign(set_transitions(S, {vt -> optimise(transition_of(S, vt))})))) with S the local-search result of the depot-improved min-cost-flow solution (or that solution itself without maintenance): no stage's result is discarded or replaced by an earlier one; and Schedule::set_next_day_transitions (slice depot_usage) installs exactly the transitions it is given and changes nothing else but the maintenance violation derived from them. What the other stages compute is NOT decided here",
+    level_text="data-flow (wiring) proof: with every stage abstracted by an uninterpreted function of its inputs, Verus proves on the verbatim bodies of server::solve_instance and internal::run that the answer is output(evaluate(reassign(set_transitions(S, {vt -> optimise(transition_of(S, vt))})))) with S the local-search result of the depot-improved min-cost-flow solution (or that solution itself without maintenance): no stage's result is discarded or replaced by an earlier one; and Schedule::set_next_day_transitions (slice depot_usage) installs exactly the transitions it is given and changes nothing else but the maintenance violation derived from them; reassign_end_depots_consistent_with_transitions (slice reassign) aligns every end depot with the cyclic successor's start depot and changes no activity. What the other stages compute is NOT decided here",
     level_note="trusted: every callee is a stub `r == spec_stage(args)` (signatures extracted from /repo resp. the pinned rapid_solve source), three accessor-undoes-constructor assumptions (A-pipe-proj), A-im, A-iter for-loops, A-clone; println! dropped (R1)",
     scope="server/src/lib.rs::solve_instance, internal/src/lib.rs::run",
     assumptions=["A-pipe: each stage is a function of its arguments (no hidden state), stub signatures as in the real crates", "A-pipe-proj: Objective::evaluate keeps the solution, ScheduleWithInfo::new / TransitionWithInfo::new keep their payload", "A-im, A-iter, A-clone"],
 )
 
+PROPS["C04"] = dict(
+    slices=["objective", "depot_usage", "sched_guard", "admission", "tour_mod", "reassign"],
+    witness_family="tour",
+    level_text="per-function links of the chain 'reported component = independent evaluation': Verus proves on the real code that each of the four indicators of solver/src/objective.rs reports exactly the schedule's aggregate of its name (unserved passengers: the pair added; maintenance violation; number of real vehicles; costs) and that objective::build arranges them as the four hierarchy levels in the order unserved passengers, maintenance violation, vehicle count, costs, each with coefficient one; that the aggregates equal their recomputation is proved where C09 proves it: the five per-tour caches incl. costs under every tour operation, compute_unserved_passengers_at_node (per-segment shortfall), the schedule's maintenance violation = sum over the installed transitions under update_transitions_and_violation_fast and set_next_day_transitions (defect D10 was exactly a C04 violation), the schedule's costs follow the tours' costs under reassign_end_depots_consistent_with_transitions, transition totals = sum of positive parts of the cycle counters (C15). The composition over a whole history of schedule modifications (Schedule.costs and unserved_passengers across fit/override_reassign, spawn, delete) is NOT decided",
+    level_note="trusted: A-dyn (hand-declared trait Indicator with evaluate only; a boxed indicator evaluates like its impl), A-im, `as i64` casts stated as cast values plus exactness when the number fits; A-lib: rapid_solve's Objective::evaluate (sum per level, lexicographic comparison) and ObjectiveValue printing are not under contract; base of C09/C15",
+    scope="solver/src/objective.rs (all of it except Indicator::name); the aggregate-maintaining functions listed under C09",
+    assumptions=A_COMMON + A_ITER + [
+        "A-dyn: dynamic dispatch on Box<dyn Indicator> runs the impl's evaluate; Indicator::name (JSON keys of the objective value) not under contract",
+        "A-lib: rapid_solve::objective::Objective::evaluate computes each level as sum(coefficient * indicator) and orders lexicographically",
+        "whole-history composition of the schedule aggregates (costs, unserved passengers) across all schedule modifications is not machine-checked",
+    ],
+)
+
+PROPS["C07"] = dict(
+    slices=["limits", "mcf_bounds", "admission", "objective"],
+    witness_family="net",
+    level_text="the per-function links: Verus proves on the real code that number_of_vehicles_required_to_serve is the exact ceiling (enough vehicles for passengers and seated passengers, and not one more), that the flow stage puts the lower bound min(required, combined formation limit) and the upper bound = combined limit on every trip edge (R8 fragments of solve_for_vehicle_type), that compute_unserved_passengers_at_node is max(0, demand - capacity of the formation) per component, and -- as a lemma over these contracts -- that a formation of at least `required` vehicles of the segment's type leaves nobody behind while a formation capped at k vehicles leaves exactly demand - k * capacity; unserved passengers is the first objective level (C04.build). That the circulation returned by the network simplex respects the bounds, that flow units are decoded into formations of that size, and that the local search never accepts a worse first level are assumptions (A-lib), so the equality with the instance's lower bound for every returned schedule is NOT decided end to end",
+    level_note="trusted: as C02; A-lib: rs_graph::mcf::network_simplex returns a feasible circulation, rapid_solve's acceptance rule is lexicographic in the level order; the decoding of the flow into tours (solve_for_vehicle_type after the solver call) is pinned by a skeleton hash, not verified",
+    scope="model/src/network.rs::number_of_vehicles_required_to_serve, the trip-edge bounds of solver/src/min_cost_flow_solver.rs, solution/src/schedule.rs::compute_unserved_passengers_at_node, solver/src/objective.rs::build",
+    assumptions=A_COMMON + [
+        "A-lib: network_simplex returns a circulation within the edge bounds; flow decoding pinned by skeleton hash only",
+        "A-lib: the local search accepts only lexicographic improvements (rapid_solve), with unserved passengers as first level (level order proved in slice objective)",
+        "a segment is served by vehicles of one type only (C01 type guard) -- premise `homogeneous` of the coverage lemma",
+        "the stand-in 100 for 'no formation limit' in the flow network: a trip needing more than 100 unlimited-type vehicles gets lower bound 100 (documented behaviour, not the property's bound)",
+    ],
+)
+
 NOT_APPLICABLE = {
-    "C04": "objective truth needs a whole-history invariant over ~900 lines of persistent-map code plus rapid_solve's dyn Objective; no contract within reach of Verus/Kani carries it",
     "C06": "whole-pipeline termination and panic freedom through rayon and the external network simplex: liveness over histories, no thread support in either verifier; per-function totality is reported under the owning property",
-    "C07": "coverage equals an optimality statement about the external network-simplex solution and the search trajectory; its per-function lemmas are proved under C02/C17",
-    "C08": "the acceptance rule and fixpoint live in rapid_solve (rayon, channels, dyn objects); trajectory property",
+    "C08": "the acceptance rule and fixpoint live in rapid_solve (rayon, channels, dyn objects); trajectory property. The one per-function part, the level order unserved passengers / maintenance violation / vehicle count / costs of objective::build, is proved under C04 (C04.build.*)",
     "C11": "neighbourhood candidates are compositions of schedule-level modifications generated under rayon; outside per-function contracts",
     "C14": "optimality of the circulation returned by rs_graph::mcf::network_simplex; the network construction is a 230-line loop over HashMaps with I/O",
     "C18": "HTTP concurrency and fault isolation across tokio tasks: no thread support in Verus (without rewriting to its permission types) or Kani",
